@@ -33,9 +33,9 @@ def shards(tier, seed):
     for i in range(nsh):
         out.append({"kind": "exh", "maxlen": L, "maxscript": S, "part": i, "parts": nsh})
     for i in range(4 if tier == "quick" else 12):
-        out.append({"kind": "gen", "n": 8000 if tier == "quick" else 60000})
-    out.append({"kind": "pair", "n": 120 if tier == "quick" else 3000})
-    out.append({"kind": "pair", "n": 120 if tier == "quick" else 3000})
+        out.append({"kind": "gen", "n": 8000 if tier == "quick" else 400000})
+    out.append({"kind": "pair", "n": 120 if tier == "quick" else 20000})
+    out.append({"kind": "pair", "n": 120 if tier == "quick" else 20000})
     return out
 
 
